@@ -68,7 +68,7 @@ func loginFlow(r *Run, c hCfg, sh compliantShape, path, query string, further in
 	orig := "https://app.example.com" + target
 	// 1. first visit, no cookie
 	q1 := hReq{Scheme: "https", Host: "app.example.com", Path: target, // Envoy leaves `query` empty: the query string is part of `path`
-		 Gen: [4]string{s.uniq("sid"), s.uniq("nonce"), s.uniq("state"), s.uniq("VERIFIER-marker")}, KeysOK: true, IDP: idpAnswer{Kind: "transport"}}
+		Gen: [4]string{s.uniq("sid"), s.uniq("nonce"), s.uniq("state"), s.uniq("VERIFIER-marker")}, KeysOK: true, IDP: idpAnswer{Kind: "transport"}}
 	o1 := s.do(q1)
 	den := o1.Resp.GetDeniedResponse()
 	loc, _ := hdrValue(den.GetHeaders(), "location")
